@@ -1115,4 +1115,5 @@ CASES = [
         format_string += "{}";
       }""")]),
  dict(name="c19-prefix-escaped-close-inside-placeholder", ids=["C19"], rule="C19.R5a", subs=[(BW, '      // look for the close bracket of this placeholder: inside a replacement field the first \'}\'\n      // closes it, "}}" is an escaped brace only in the literal text that follows (e.g. "{x}}}")\n      size_t close_bracket_pos = fmt_template.find_first_of(\'}\', open_bracket_pos + 1);\n      while (close_bracket_pos != std::string::npos)\n      {\n', "      // look for the next close bracket\n      size_t close_bracket_pos = fmt_template.find_first_of('}', open_bracket_pos + 1);\n      while (close_bracket_pos != std::string::npos)\n      {\n        // found closed bracket\n        if (size_t const close_bracket_2_pos = fmt_template.find_first_of('}', close_bracket_pos + 1);\n            close_bracket_2_pos != std::string::npos)\n        {\n          // found another open bracket\n          if ((close_bracket_2_pos - 1) == close_bracket_pos)\n          {\n            close_bracket_pos = fmt_template.find_first_of('}', close_bracket_2_pos + 1);\n            continue;\n          }\n        }\n\n")]),
+ dict(name="c19-prefix-underscore-name-not-named", ids=["C19"], rule="C19.R6", subs=[("core/MacroMetadata.h", "(fc >= 'A' && fc <= 'Z') || (fc == '_')))", "(fc >= 'A' && fc <= 'Z')))")]),
 ]
